@@ -21,6 +21,8 @@ pub enum Unit14 {
     Count { rows: u64, id: u64 },
     /// zero-column resultset with rows ended by the given forms
     ZeroCols { forms: Vec<RowForm>, n_extra_write_row: usize },
+    /// zero-column resultset on which `end_row()` is called `n` times in a loop
+    ZeroColsBulk { n: u64 },
 }
 
 #[derive(Clone, Debug, Serialize, Deserialize)]
@@ -54,6 +56,10 @@ fn program(case: &Case) -> Program {
                 }
                 steps.push(Step::Set { cols: vec![], rows, end: if last && case.direct_terminal { SetEnd::Finish } else { SetEnd::FinishOne } })
             }
+            Unit14::ZeroColsBulk { n } => {
+                let rows = vec![RowProg { cells: vec![], form: RowForm::EndRowTimes(*n), offers: vec![] }, RowProg { cells: vec![], form: RowForm::WriteRow, offers: vec![] }];
+                steps.push(Step::Set { cols: vec![], rows, end: if last && case.direct_terminal { SetEnd::Finish } else { SetEnd::FinishOne } })
+            }
         }
     }
     if !case.direct_terminal {
@@ -68,7 +74,7 @@ impl Prop for C14 {
         "C14"
     }
     fn rule(&self) -> String {
-        "cases = chains of 1-4 completion units answered to COM_QUERY (text) or COM_STMT_EXECUTE (binary): (rows, last_insert_id) pairs from B x B with B = {0, 1, 250..254, 65535, 65536, 2^24-1, 2^24, 2^32-1, 2^32, 2^63, 2^64-2, 2^64-1} (enumerated) and random u64 pairs, via completed or complete_one chains; zero-column resultsets with n in {0, 1, 2, 250, 251, 300, 70000} rows ended by end_row / write_row mixes. Oracle: the decoded OK (own decoder + mysql_common's OkPacket parser) carries exactly those two numbers; a zero-column set's OK carries affected-rows = number of rows the program ended. Non-trivial = a value >= 251 (beyond the 1-byte length encoding), a chain of >= 2, or a zero-column set with rows.".into()
+        "cases = chains of 1-4 completion units answered to COM_QUERY (text) or COM_STMT_EXECUTE (binary): (rows, last_insert_id) pairs from B x B with B = {0, 1, 250..254, 65535, 65536, 2^24-1, 2^24, 2^32-1, 2^32, 2^63, 2^64-2, 2^64-1} (enumerated) and random u64 pairs, via completed or complete_one chains; zero-column resultsets with n in {0, 1, 2, 250, 251, 300, 70000} rows ended by end_row / write_row mixes, and with n+1 rows for n in {65535, 65536, 2^24-1, 2^24, 2^32-2, 2^32+4 (thorough: also 2^31-1, 2^31, 2^32-1, 2^33+1)} ended by end_row() in a loop. Oracle: the decoded OK (own decoder + mysql_common's OkPacket parser) carries exactly those two numbers; a zero-column set's OK carries affected-rows = number of rows the program ended. Non-trivial = a value >= 251 (beyond the 1-byte length encoding), a chain of >= 2, or a zero-column set with rows.".into()
     }
     fn exhaustive_note(&self, _tier: Tier) -> Option<String> {
         Some("B x B for single completions in text and binary mode".into())
@@ -125,6 +131,15 @@ impl Prop for C14 {
                 });
             }
         }
+        // "for all numbers of rows written to a zero-column resultset": the counts at which 16-,
+        // 24- and 32-bit counters wrap (ending such a row sends nothing, so billions are cheap)
+        let bulk: &[u64] = match tier {
+            Tier::Quick => &[65_535, 65_536, (1 << 24) - 1, 1 << 24, (1 << 32) - 2, (1 << 32) + 4],
+            Tier::Thorough => &[65_535, 65_536, (1 << 24) - 1, 1 << 24, (1 << 31) - 1, 1 << 31, (1 << 32) - 2, (1 << 32) - 1, (1 << 32) + 4, (1 << 33) + 1],
+        };
+        for (i, &n) in bulk.iter().enumerate() {
+            v.push(Case { units: vec![Unit14::ZeroColsBulk { n }], bin: i % 2 == 0, direct_terminal: i % 3 != 0 });
+        }
         v
     }
     fn exec(&self, case: &Case) -> Exec {
@@ -133,9 +148,13 @@ impl Prop for C14 {
         let big = case.units.iter().any(|u| match u {
             Unit14::Count { rows, id } => *rows >= 251 || *id >= 251,
             Unit14::ZeroCols { forms, n_extra_write_row } => forms.len() + n_extra_write_row > 0,
+            Unit14::ZeroColsBulk { .. } => true,
         });
+        if let Some(n) = case.units.iter().filter_map(|u| if let Unit14::ZeroColsBulk { n } = u { Some(*n) } else { None }).max() {
+            ex.class(if n >= 1 << 32 { "zero-column-set-with->=2^32-rows" } else if n >= 1 << 24 { "zero-column-set-with->=2^24-rows" } else { "zero-column-set-bulk" });
+        }
         ex.nontrivial = big || case.units.len() >= 2;
-        if case.units.iter().any(|u| matches!(u, Unit14::ZeroCols { .. })) {
+        if case.units.iter().any(|u| matches!(u, Unit14::ZeroCols { .. } | Unit14::ZeroColsBulk { .. })) {
             ex.class("zero-column-set");
         }
         if case.units.len() >= 2 {
